@@ -269,8 +269,8 @@ def _dag_size(t, limit):
         if k in seen:
             continue
         seen.add(k)
-        if len(seen) > limit:
-            return limit + 1
+        if len(seen) > limit or (z3.is_app(x) and x.decl().kind() == z3.Z3_OP_ITE):
+            return limit + 1        # too big, or contains if-then-else: sum-of-monomials expansion can explode
         stack.extend(x.children())
     return len(seen)
 
@@ -1075,14 +1075,14 @@ class Q:
 
     def minimum(self, o):
         o = Q.lift(o)
-        r = Q.ite(self._lt(o), self, o)
+        r = Q.ite(self._lt(o), self, o, cheap=True)
         r.nan = bor(self.nan, o.nan)
         r.inf = band(r.inf, bnot(r.nan))
         return r
 
     def maximum(self, o):
         o = Q.lift(o)
-        r = Q.ite(o._lt(self), self, o)
+        r = Q.ite(o._lt(self), self, o, cheap=True)
         r.nan = bor(self.nan, o.nan)
         r.inf = band(r.inf, bnot(r.nan))
         return r
